@@ -479,3 +479,106 @@ pub fn run_c10(o: &Opts) -> i32 {
     crate::util::write_json(&format!("{}/stats.json", o.out), &json!({"total": total, "samples": samples, "ordered_scale_pairs": 36}));
     0
 }
+
+// ------------------------------------------------------------------------------------ C06
+
+fn req_line_p(text: &str) -> String { req_line(text).replacen("eval ", "evalp ", 1) }
+
+pub fn run_c06(o: &Opts) -> i32 {
+    let db = Db::new();
+    let mut rng = Rng::new(o.seed);
+    let mut req = o.writer("req.txt");
+    let mut aux = o.writer("aux.txt");
+    let mut total = 0u64;
+    let mut samples = vec![];
+    let mut emit = |text: &str, src: &str, total: &mut u64, samples: &mut Vec<String>| {
+        if text.chars().count() > 450 { return; }
+        let top = eval_number(&db.ctx, src);
+        writeln!(req, "{}", req_line_p(text)).unwrap();
+        writeln!(aux, "{}", match &top { Some(t) => json!({"top": rat(&t.value), "topdims": fmt_dim(&t.unit)}), None => json!({"top": null}) }).unwrap();
+        *total += 1;
+        if samples.len() < 12 && *total % 499 == 1 { samples.push(text.to_string()); }
+    };
+    // corpus
+    for t in ["1000 m -> hex", "1000 m -> base 7", "5e9 kg", "1 bit", "8 bit", "1e6 gram", "0.5 mm^2", "1 gram^-2", "1 -> milliCalorie", "3 megagram", "1 kg m^2 / s^3 A^2"] {
+        let src = t.split("->").next().unwrap().trim().to_string();
+        emit(t, &src, &mut total, &mut samples);
+    }
+    // 1. every database unit (sampled in quick) x magnitudes at SI prefix boundaries x powers
+    let mags: Vec<i32> = (-10..=10).map(|k| k * 3).collect();
+    for name in &db.names {
+        if !o.thorough && !rng.chance(1, 12) { continue; }
+        let reps = if o.thorough { 4 } else { 2 };
+        for _ in 0..reps {
+            let e = *rng.pick(&mags);
+            let m = *rng.pick(&["0.999", "1", "1000", "999.999", "1.0001", "-1", "2.5"]);
+            let p = 1 + rng.below(3);
+            let text = if p == 1 { format!("{}e{} {}", m, e, name) } else { format!("{}e{} {}^{}", m, e, name, p) };
+            emit(&text, &text, &mut total, &mut samples);
+        }
+    }
+    // 2. products / quotients of up to four base units with exponents -3..3 (derived-unit regrouping)
+    let bases: Vec<String> = db.ctx.registry.base_units.iter().map(|b| b.to_string()).collect();
+    let n2 = if o.thorough { 40_000 } else { 3_000 };
+    for _ in 0..n2 {
+        let k = 1 + rng.below(4);
+        let mut parts = vec![];
+        for _ in 0..k { let e = rng.range(-3, 3); if e != 0 { parts.push(format!("{}^{}", rng.pick(&bases), e)); } }
+        if parts.is_empty() { continue; }
+        let c = *rng.pick(&["1", "1000", "1e-6", "12.5", "1|3", "0.001", "7e9", "-4"]);
+        let text = format!("{} {}", c, parts.join(" "));
+        emit(&text, &text, &mut total, &mut samples);
+    }
+    // 3. conversions with constants / prefixes / compound targets, and digits / base modes
+    let n3 = if o.thorough { 40_000 } else { 3_000 };
+    let dims: Vec<&Vec<String>> = db.by_dim.values().filter(|v| v.len() >= 2).collect();
+    for _ in 0..n3 {
+        let g = *rng.pick(&dims);
+        let (a, b) = (rng.pick(g).clone(), rng.pick(g).clone());
+        let c = *rng.pick(&["1", "3", "2.5", "1|7", "1000", "1e-3", "12"]);
+        let src = format!("{} {}", coef_pos(&mut rng), a);
+        let text = match rng.below(8) {
+            0 => format!("{} -> {} {}", src, c, b),
+            1 => format!("{} -> {}{}", src, rng.pick(&db.prefixes), b),
+            2 => format!("{} -> {} / {}", src, b, c),
+            3 => format!("{} -> digits {}", src, rng.below(30)),
+            4 => format!("{} -> {}", src, *rng.pick(&["hex", "oct", "bin", "base 7", "base 36", "sci", "eng", "frac", "digits"])),
+            5 => format!("{} {} -> {} {}", src, a, b, a),
+            6 => format!("{} -> {} {}", src, *rng.pick(&["sci", "eng", "hex", "digits 12"]), b),
+            _ => format!("{} -> {}", src, b),
+        };
+        let src_text = text.split("->").next().unwrap().trim().to_string();
+        emit(&text, &src_text, &mut total, &mut samples);
+    }
+    drop(emit);
+    req.flush().unwrap(); aux.flush().unwrap();
+    crate::util::write_json(&format!("{}/stats.json", o.out), &json!({"total": total, "samples": samples, "unit_names": db.names.len()}));
+    0
+}
+
+/// post-pass for the C06 oracle: resolves every unit name printed in impl.txt the way Rink
+/// reads names (`Context::lookup`) and writes lookups.txt (one JSON object per line).
+pub fn c06_lookups(o: &Opts) -> i32 {
+    let db = Db::new();
+    let imp = std::fs::read_to_string(format!("{}/impl.txt", o.out)).expect("impl.txt");
+    let mut out = o.writer("lookups.txt");
+    for line in imp.lines() {
+        let mut m = serde_json::Map::new();
+        if line.starts_with("parts ") {
+            let field = |k: &str| line.split(' ').find_map(|f| f.strip_prefix(&format!("{}=", k)).map(|s| s.to_string()));
+            let names = match field("rawunit") { Some(u) if u != "none" => u, _ => field("rawdims").unwrap_or_else(|| "-".into()) };
+            if names != "-" && names != "none" {
+                for part in names.split(',') {
+                    if let Some((k, _)) = part.rsplit_once(':') {
+                        let name = if let Some(h) = k.strip_prefix('x') { crate::evalsess::unhex(h) } else { k.to_string() };
+                        let v = db.lookup(&name);
+                        m.insert(k.to_string(), match v { Some(n) => json!({"v": rat(&n.value), "d": fmt_dim(&n.unit)}), None => serde_json::Value::Null });
+                    }
+                }
+            }
+        }
+        writeln!(out, "{}", serde_json::Value::Object(m)).unwrap();
+    }
+    out.flush().unwrap();
+    0
+}
